@@ -123,6 +123,28 @@ for _k, _c in EXTRA2.items():
     c0, n0, t0 = CLAIMS[_k]
     CLAIMS[_k] = (c0 + _c, n0, t0)
 
+# clauses added by the rules written for the wave-6 seeded changes and the two direct-call findings
+EXTRA3 = {
+ "C02": "; after a staking effect that also pays out pending rewards the StateDB mirror's amount is measured from the bank balance (thorough tier W9 re-derives which message-server methods pay rewards); a distribution handler credits the caller only where the withdraw address is the caller",
+ "C03": "; every success exit of every Haqq ante decorator passes next",
+ "C05": "; RunSetup never flushes the StateDB and every Run flushes only after RunSetup succeeded",
+ "C06": "; ante chains are assembled only in the three route constructors, each of which returns its chain itself",
+ "C07": "; MsgEthereumTxResponse.GasUsed has a single writer; the refund and fee computations use no machine-word multiplication",
+ "C08": "; the EVM keeper's SetAccount writes back the account object it read (a new one only where none was stored)",
+ "C09": "; the merge and the new-account branch of CreateClawbackVestingAccount receive their schedules from the same source; the schedule readers advance their clock by every period's length",
+ "C11": "; in Liquidate and Redeem a failed keeper step reaches failure exits only",
+ "C12": "; in the DAO message path a failed keeper step reaches failure exits only; setHoldersIndex decides by balances and the current entry alone",
+ "C13": "; the mint helper mints exactly the coin it is given",
+ "C15": "; the MsgMultiSend wrapper tests every output against the blocked addresses; staking pools are named by constants wherever Haqq code moves their coins",
+ "C16": "; before the native call a handler fails only on errors of argument decoders and authorization helpers; StateDB mirrors target accounts loaded before the bank change (C02 R4t)",
+ "C17": "; the export hands on the persisted gas figure; the declared-gas counter is a plain running sum",
+ "C18": "; UnwrapEthereumMsg returns a message only where its recomputed hash equals the requested one; message-level fee getters only delegate to the tx data",
+ "C19": "; run-time entries of the erc20 lookup maps are keyed as the import rebuilds them; the DAO holders index is written only by the function the import uses",
+}
+for _k, _c in EXTRA3.items():
+    c0, n0, t0 = CLAIMS[_k]
+    CLAIMS[_k] = (c0 + _c, n0, t0)
+
 BUILT = json.load(open('/verif/tools/built.json'))
 
 m = {"version": 1,
